@@ -839,7 +839,8 @@ def run(ck: common.Check):
     answers = drv.ask([model_request(c) for c in cases])
     if answers is None:
         ck.broken.append({"what": "driver Drivers/C16.lean", "detail": drv.broken})
-    n_unmodelled = n_model = 0
+    n_unmodelled = n_model = n_spec = 0
+    wf_hist = {}
     for i, (c, o) in enumerate(zip(cases, obs)):
         ck.case({k: v for k, v in c.items() if k not in ("doc", "xml_path")} | {"doc_digest": json.dumps(c["doc"], sort_keys=True)[:4000]},
                 tag_of(c, o), nontrivial=bool(c["doc"]["spots"]))
@@ -851,6 +852,28 @@ def run(ck: common.Check):
             ck.fail(key, what, c, {k: o.get(k) for k in ("exc", "msg", "nodes", "edges", "lineage", "graph", "track_node_props") if k in o}, exp)
         if answers is None:
             continue
+        sp = answers[i].get("spec")
+        if sp is not None:
+            # the specification vocabulary of the theorems (keepSpot / trackIdOf / lone, evaluated in Lean on
+            # the document) against the independent Python reading of the property, and the hypotheses of the
+            # theorems (wfB / metaOkB / tracksConnectedB) on every document of the regular stream
+            kind = c.get("malformed") or "regular"
+            key3 = f"{kind}: wf={sp['wf']} meta={sp['meta_ok']} connected={sp['connected']}"
+            wf_hist[key3] = wf_hist.get(key3, 0) + 1
+            if not c.get("malformed"):
+                n_spec += 1
+                keep, _, track_of = expected_graph(c["doc"], c["ds"], c["dt"])
+                ids = [s_["id"] for s_ in c["doc"]["spots"]]
+                lean_tid = [None if t is None else int(t.get("i", t.get("fi", "-999999"))) for t in sp["track_id"]]
+                if not (sp["wf"] and sp["meta_ok"] and sp["connected"]):
+                    ck.corr_broken("C16:generated document of the regular stream fails wfB/metaOkB/tracksConnectedB "
+                                   "(theorems would not apply)", c, None, sp)
+                elif [int(x) for x in sp["keep"]] != keep:
+                    ck.corr_broken("C16:keepSpot (Lean spec) vs python oracle: kept spots", c, keep, sp["keep"])
+                elif lean_tid != [track_of.get(n) for n in ids]:
+                    ck.corr_broken("C16:trackIdOf (Lean spec) vs python oracle", c, [track_of.get(n) for n in ids], lean_tid)
+                elif sp["lone"] != [n not in track_of for n in ids]:
+                    ck.corr_broken("C16:lone (Lean spec) vs python oracle", c, None, sp["lone"])
         verdict, detail = compare_model(c, o, answers[i])
         if verdict == "unmodelled":
             n_unmodelled += 1
@@ -861,6 +884,8 @@ def run(ck: common.Check):
                            {k: o.get(k) for k in ("exc", "msg", "nodes", "edges") if k in o},
                            answers[i] if "exc" in answers[i] else "see model")
     ck.extra["model_comparisons"] = n_model
+    ck.extra["s_oracle_evaluations"] = n_spec
+    ck.extra["hypotheses_of_theorems_on_generated_documents"] = wf_hist
     ck.extra["unmodelled_outcomes_skipped"] = n_unmodelled
     ck.assumptions += [
         "lxml iterparse event/cursor handling (_get_attributes_metadata, _get_filtered_tracks_ID, …) is exercised through "
